@@ -101,20 +101,31 @@ def r01_2(ctx):
     return r
 
 
+def _reads_assoc_state(t):
+    return mir.has(t, lambda x: x[0] == "call" and x[1].endswith("::lock") and x[2] and x[2][0][0] == "field" and x[2][0][2] == "state")
+
+
+def _not_established_edge(term, meaning):
+    """the edge on which the association is known NOT to be established (yet): `<state> == Connected` false,
+    `!= Connected` true, `== Connecting / New` true - where <state> is `*self.state.lock()` or the previous value handed
+    back by `mem::replace(&mut *self.state.lock(), ..)`"""
+    if not (term[0] == "call" and "PartialEq" in term[1] and isinstance(meaning, bool) and len(term[2]) == 2):
+        return False
+    a, b = term[2]
+    if _reads_assoc_state(b) and not _reads_assoc_state(a):
+        a, b = b, a
+    if not _reads_assoc_state(a) or _reads_assoc_state(b):
+        return False
+    if not (b[0] == "agg" and b[1].endswith("SctpState")):
+        return False
+    eq_edge = meaning is term[1].endswith("::eq")
+    return (b[2] == "Connected" and not eq_edge) or (b[2] in ("Connecting", "New") and eq_edge)
+
+
 def r01_3(ctx):
     r = RuleResult("R01.3", "K1", "association set-up must not clobber an established association")
     def state_tested(term, meaning, *_):
-        # the edge on which the association is known NOT to be established: `*self.state.lock() == Connected` false,
-        # `!= Connected` true, or `== Connecting / New` true
-        if not (term[0] == "call" and "PartialEq" in term[1] and isinstance(meaning, bool)):
-            return False
-        if not mir.has(term, lambda x: x[0] == "call" and x[1].endswith("::lock") and x[2] and x[2][0][0] == "field" and x[2][0][2] == "state"):
-            return False
-        vs = [x[2] for x in mir.walk(term) if x[0] == "agg" and x[1].endswith("SctpState")]
-        if len(vs) != 1:
-            return False
-        eq_edge = meaning is term[1].endswith("::eq")
-        return (vs[0] == "Connected" and not eq_edge) or (vs[0] in ("Connecting", "New") and eq_edge)
+        return _not_established_edge(term, meaning)
     for fn in ("handle_init", "handle_init_ack"):
         b = ctx.body(S + fn + "::{closure#0}")
         r.scope.append(b.name)
@@ -132,6 +143,33 @@ def r01_3(ctx):
                 r.violate(b.name, "store:%s" % f, b.where(bi),
                           "%s overwrites %s without looking at the association state: a duplicated or late %s resets an established association" % (
                               fn, f, "INIT" if fn == "handle_init" else "INIT-ACK"))
+        if fn == "handle_init_ack":
+            # 'not established' is not enough for the INIT-ACK: between COOKIE-ECHO and COOKIE-ACK the peer is already up
+            # and its DATA is taken (handle_packet does not look at the state). A duplicated INIT-ACK in that window
+            # would rewind the receive point behind DATA that has been acknowledged - it is never sent again, and
+            # everything after it waits in the reorder buffer for ever. RFC 4960 5.2.3: INIT-ACK is taken in COOKIE-WAIT
+            # only; here: while the T1 timer still carries the INIT.
+            ct_init = None
+            si = ctx.body(S + "send_init::{closure#0}")
+            for _bi, t, _p in si.calls():
+                for x in mir.walk(si.term_call(t)):
+                    if x[0] == "item" and x[1].endswith("::CT_INIT") and isinstance(x[2], int):
+                        ct_init = x[2]
+            if ct_init is None:
+                raise core.CheckerError("R01.3: value of CT_INIT not found (send_init no longer arms T1 with it?)")
+            def cookie_wait(term, meaning, *_):
+                return (meaning == ct_init and not isinstance(meaning, bool) and mir.has_field(term, "t1_chunk")
+                        and term[0] == "field")
+            gw = core.lift_guards(b, core.guard_edges(b, cookie_wait))
+            for bi, f in sites:
+                if f != "cumulative_tsn_ack":
+                    continue
+                if gw and core.k1(b, [bi], gw)[bi] is None:
+                    r.ok({"site": b.where(bi), "field": f, "cut_by": "T1 still carries the INIT (COOKIE-WAIT)"})
+                else:
+                    r.violate(b.name, "init-ack:outside-cookie-wait", b.where(bi),
+                              "handle_init_ack rewinds the receive point for any INIT-ACK that arrives before COOKIE-ACK: a duplicated INIT-ACK after "
+                              "the peer's first DATA moves cumulative_tsn_ack behind acknowledged DATA and the channel stops delivering")
     # a copy of the INIT that is being answered (same initiate tag, association not up yet) must get the SAME INIT-ACK:
     # the values this side chooses - its verification tag and its initial TSN - are fresh random numbers only on the
     # edge where the INIT is not such a copy; otherwise they are the stored ones
@@ -508,5 +546,119 @@ def r01_12(ctx):
     return r
 
 
+_CONSUMING = ("::clear", "mem::take", "mem::replace", "::drain", "::truncate", "::pop", "::remove", "::swap_remove", "::retain", "::split_off")
+
+
+def r01_13(ctx):
+    """a FORWARD-TSN is not covered by any retransmission timer: the chunks it stands for have left the sent queue. If
+    its datagram is lost, the peer's cumulative TSN stays in front of the abandoned TSNs for ever and nothing behind them
+    is delivered - on ANY channel of the association, the reliable ones included. RFC 3758 3.5 C3: whenever a SACK's
+    cumulative ack is behind the advanced ack point, FORWARD-TSN is sent again. Decided here: (a) handle_sack compares
+    the advanced ack point with the SACK's own cumulative ack and, on the 'behind' edge, always re-arms
+    forward_tsn_pending before it transmits; (b) the stream/SSN pairs a repeated FORWARD-TSN must name are consumed
+    only by handle_sack on the 'not behind' edge - never by building the chunk."""
+    r = RuleResult("R01.13", "K4+K3", "an unacknowledged FORWARD-TSN is repeated, with its stream/SSN pairs")
+    fn = S + "handle_sack::{closure#0}"
+    b = ctx.body(fn)
+    r.scope.append(fn)
+
+    def is_behind(term):
+        return (term[0] == "call" and term[1].endswith("::tsn_gt") and len(term[2]) == 2
+                and core.is_atomic_load(term[2][0], "advanced_peer_ack_tsn")
+                and mir.has(term[2][1], lambda x: x[0] == "call" and x[1].endswith("get_u32"))
+                and not mir.has(term[2][1], lambda x: x[0] == "field"))
+    behind = core.guard_edges(b, lambda term, meaning, *_: is_behind(term) and meaning is True)
+    not_behind = core.guard_edges(b, lambda term, meaning, *_: is_behind(term) and meaning is False)
+    arms = [bi for bi, t, args in core.atomic_sites(b, "forward_tsn_pending", "store") if mir.int_value(args[1]) == 1]
+    sends = [bi for bi, t, p in b.calls() if p and p.endswith("SctpInner::transmit") and bi not in b.cleanup]
+    r.need("transmit call at the end of handle_sack", len(sends), 1)
+    if not behind:
+        r.violate(fn, "fwd:no-repeat", b.where(0),
+                  "handle_sack never compares the advanced ack point with the SACK's cumulative ack: a FORWARD-TSN whose datagram is lost "
+                  "is never sent again and the peer stops delivering on every channel")
+    for sb, tgt in behind:
+        reach = b.reachable([tgt], cut_blocks=set(arms)) if tgt not in arms else set()
+        leak = [x for x in reach if x in sends or (b.blocks[x]["t"]["k"] == "ret" and x not in b.cleanup)]
+        if leak:
+            r.violate(fn, "fwd:not-rearmed", b.where(sb),
+                      "the SACK's cumulative ack is behind the advanced ack point, but a path reaches %s without forward_tsn_pending = true: "
+                      "the lost FORWARD-TSN is not repeated" % b.where(leak[0]))
+        else:
+            r.ok({"site": b.where(sb), "behind": "forward_tsn_pending re-armed before transmit on every path"})
+    # (b) who consumes the pairs
+    n = 0
+    for body in ctx.facts.all_bodies():
+        if not body.name.startswith("transports::sctp::") or "::tests::" in body.name:
+            continue
+        for bi, t, p in body.calls():
+            if not p or bi in body.cleanup or not t["a"]:
+                continue
+            if not any(p.endswith(c) or (c + "::") in p for c in _CONSUMING):
+                continue
+            if not mir.has_field(body.term_operand(t["a"][0]), "forward_tsn_streams"):
+                continue
+            n += 1
+            if body.name == fn and not_behind and core.k1(body, [bi], not_behind)[bi] is None:
+                r.ok({"site": body.where(bi), "consumes": "pairs dropped once the peer's cumulative ack has reached the ack point"})
+            else:
+                r.violate(body.name, "fwd:pairs-consumed", body.where(bi),
+                          "the stream/SSN pairs of the outstanding FORWARD-TSN are consumed (%s) although the peer may not have received it: "
+                          "the repeated FORWARD-TSN no longer tells the peer's ordered streams which SSNs to skip" % p.split("::")[-1])
+        for bi, si, st, v in core.lock_write_sites(body, "forward_tsn_streams"):
+            base = body.term_local(st["p"]["l"])
+            if not (base[0] == "call" and base[1].endswith("::lock")):
+                continue        # an element updated in place (merge), not the list replaced
+            n += 1
+            r.violate(body.name, "fwd:pairs-replaced", body.where(bi),
+                      "the stream/SSN pairs of an outstanding FORWARD-TSN are overwritten; they must be merged until the peer has caught up")
+    r.scope.append(S + "create_forward_tsn_chunk")
+    return r
+
+
+def r01_14(ctx):
+    """Advanced.Peer.Ack.Point says 'everything up to here is settled'. update_advanced_peer_ack_point drops every chunk
+    of the sent queue up to it and FORWARD-TSN tells the peer to skip them. Whoever moves it forward without the chunks
+    being acknowledged or abandoned throws reliable data away: a duplicated COOKIE-ACK / COOKIE-ECHO used to re-initialise
+    it to next_tsn - 1 on an association that had already sent data. Who may store it: the abandonment walk (R01.11);
+    handle_sack, to the SACK's own cumulative ack and only forward; the two handshake completions, only on the edge on
+    which this very call established the association."""
+    r = RuleResult("R01.14", "K3+K1", "the PR-SCTP ack point is initialised once and otherwise moves only over acknowledged or abandoned chunks")
+    n = 0
+    for b in ctx.facts.all_bodies():
+        if not b.name.startswith("transports::sctp::") or "::tests::" in b.name:
+            continue
+        for bi, t, args in core.atomic_sites(b, "advanced_peer_ack_tsn", "store"):
+            if bi in b.cleanup:
+                continue
+            n += 1
+            short = b.name[len("transports::sctp::"):]
+            if short == "SctpInner::update_advanced_peer_ack_point":
+                r.ok({"site": b.where(bi), "by": "abandonment walk (R01.11)"})
+            elif short in ("SctpInner::handle_cookie_ack::{closure#0}", "SctpInner::handle_cookie_echo::{closure#0}"):
+                g = core.guard_edges(b, lambda term, meaning, *_: _not_established_edge(term, meaning))
+                if g and core.k1(b, [bi], g)[bi] is None:
+                    r.ok({"site": b.where(bi), "cut_by": "this call established the association"})
+                else:
+                    r.violate(b.name, "ackpoint:reinit", b.where(bi),
+                              "the PR-SCTP ack point is set to next_tsn - 1 whenever this chunk arrives: a duplicated or retransmitted copy on an "
+                              "association that has sent data moves it past unacknowledged chunks, and the next FORWARD-TSN skips them (reliable ones too)")
+            elif short == "SctpInner::handle_sack::{closure#0}":
+                v = args[1]
+                wire = mir.has(v, lambda x: x[0] == "call" and x[1].endswith("get_u32")) and not mir.has(v, lambda x: x[0] == "field")
+                def fwd(term, meaning, *_):
+                    return (term[0] == "call" and term[1].endswith("::tsn_gt") and meaning is True and len(term[2]) == 2
+                            and term[2][0] == v and core.is_atomic_load(term[2][1], "advanced_peer_ack_tsn"))
+                g = core.guard_edges(b, fwd)
+                if wire and g and core.k1(b, [bi], g)[bi] is None:
+                    r.ok({"site": b.where(bi), "value": "the SACK's cumulative ack, forward only"})
+                else:
+                    r.violate(b.name, "ackpoint:sack", b.where(bi),
+                              "handle_sack moves the PR-SCTP ack point to something other than the SACK's cumulative ack, or backwards")
+            else:
+                r.violate(b.name, "ackpoint:writer", b.where(bi), "unexpected writer of the PR-SCTP ack point")
+    r.need("stores to advanced_peer_ack_tsn", n, 3)
+    return r
+
+
 def run(ctx):
-    return [r01_1(ctx), r01_2(ctx), r01_3(ctx), r01_4(ctx), r01_5(ctx), r01_6(ctx), r01_7(ctx), r01_8(ctx), r01_9(ctx), r01_10(ctx), r01_11(ctx), r01_12(ctx)]
+    return [r01_1(ctx), r01_2(ctx), r01_3(ctx), r01_4(ctx), r01_5(ctx), r01_6(ctx), r01_7(ctx), r01_8(ctx), r01_9(ctx), r01_10(ctx), r01_11(ctx), r01_12(ctx), r01_13(ctx), r01_14(ctx)]
